@@ -53,9 +53,9 @@ type Case struct {
 }
 
 // families put permuted / repeated level sets on one connection (the per-connection counter key was an XOR fold)
-var goodFilters = []string{"a/b/", "b/a/", "a/a/", "b/b/", "x/x/y/", "y/", "a/", "a/+/", "+/a/", "+/", "a/b/x/", "x/y/", "y/x/", "+/+/", "b/"}
+var goodFilters = []string{"a/b/", "b/a/", "a/a/", "b/b/", "x/x/y/", "y/", "a/", "a/+/", "+/a/", "+/", "a/b/x/", "x/y/", "y/x/", "+/+/", "b/", "$share/g1/a/b/", "$share/g1/a/", "$share/g2/+/a/", "$share/g1/a/b/"}
 var badFilters = []string{"a/b", "a b/", "", "a/+x/", "/", "a/x#/"}
-var goodChannels = []string{"a/b/", "b/a/", "a/a/", "b/b/", "x/x/y/", "y/", "a/", "a/b/x/", "x/y/", "y/x/", "b/", "y/z/"}
+var goodChannels = []string{"a/b/", "b/a/", "a/a/", "b/b/", "x/x/y/", "y/", "a/", "a/b/x/", "x/y/", "y/x/", "b/", "y/z/", "a/x/", "x/a/", "a/y/"}
 var badChannels = []string{"a/b", "a/+/", "", "a b/", "+/"}
 var linkNames = []string{"l1", "l2", "L", "abc", "", "l-"}
 
@@ -113,6 +113,12 @@ func genCase(t *rapid.T) Case {
 			}
 			if len(all) > 0 && rapid.IntRange(0, 2).Draw(t, "hitsub") > 0 {
 				op.Ch = strings.ReplaceAll(rapid.SampledFrom(all).Draw(t, "subf"), "+", "a")
+				if _, rest, ok := shareOf(op.Ch); ok { // publish to what the share-group filter matches
+					op.Ch = rest
+				}
+				if !inList(goodChannels, op.Ch) {
+					op.Ch = rapid.SampledFrom(goodChannels).Draw(t, "chfix")
+				}
 				if rapid.IntRange(0, 3).Draw(t, "deeper") == 0 && inList(goodChannels, op.Ch+"x/") {
 					op.Ch += "x/"
 				}
@@ -188,6 +194,18 @@ func theBroker(mqtt bool) *vkit.Broker {
 // validFilter: everything the generator produces except the strings it lists as malformed (filters acquired through a
 // link's auto-subscribe come from the channel list).
 func validFilter(f string) bool { return !inList(badFilters, f) }
+
+// shareOf splits "$share/<group>/<filter>".
+func shareOf(f string) (group, rest string, ok bool) {
+	if !strings.HasPrefix(f, "$share/") {
+		return "", "", false
+	}
+	p := strings.SplitN(f, "/", 3)
+	if len(p) < 3 || p[2] == "" {
+		return "", "", false
+	}
+	return p[1], p[2], true
+}
 
 func canRead(k string) bool  { return k == "rw" || k == "r" }
 func canWrite(k string) bool { return k == "rw" || k == "w" }
@@ -397,6 +415,28 @@ func run(c Case) (res vkit.Result) {
 			if err != nil {
 				return fail("step %d: publish %+v: %v", step, op, err)
 			}
+			shareRecv := 0                  // connections that hold only share-group filters for this channel and received a copy
+			groupsAll := map[string]bool{}  // share groups with a matching member (the publisher is no member when it excluded itself)
+			groupsOpen := map[string]bool{} // ... of which no member also holds a matching ordinary filter
+			groupHit := map[string]bool{}
+			for _, o := range clients {
+				direct := false
+				for f := range o.subs {
+					if vkit.MatchStr(c.MQTT, f, ch) {
+						direct = true
+					}
+				}
+				for f := range o.subs {
+					if g, rest, ok := shareOf(f); ok && vkit.MatchStr(c.MQTT, rest, ch) && !(me0 && o == m) {
+						if !groupsAll[g] {
+							groupsAll[g], groupsOpen[g] = true, true
+						}
+						if direct {
+							groupsOpen[g] = false
+						}
+					}
+				}
+			}
 			for i, o := range clients {
 				var got []*packets.PublishPacket
 				if o == m {
@@ -439,6 +479,23 @@ func run(c Case) (res vkit.Result) {
 				if nerr != wantErr {
 					return fail("step %d: publish %+v (accepted=%v): client %d got %d error replies, want %d", step, op, accepted, i, nerr, wantErr)
 				}
+				// a connection that holds only share-group filters matching the channel may be the member picked for its group
+				var myGroups []string
+				if accepted && want == 0 && !(me0 && o == m) {
+					for f := range o.subs {
+						if g, rest, ok := shareOf(f); ok && vkit.MatchStr(c.MQTT, rest, ch) {
+							myGroups = append(myGroups, g)
+						}
+					}
+				}
+				if len(myGroups) > 0 && len(data) == 1 {
+					want = 1
+					shareRecv++
+					for _, g := range myGroups {
+						groupHit[g] = true
+					}
+					labels["delivered-to-share-member"] = true
+				}
 				if len(data) != want {
 					return fail("step %d: publish to %q by client %d (accepted=%v me0=%v): client %d holding %v received %d copies, want %d",
 						step, ch, op.C, accepted, me0, i, sortedKeys(o.subs), len(data), want)
@@ -458,6 +515,18 @@ func run(c Case) (res vkit.Result) {
 					}
 					if len(o.subs) >= 2 && effUnsub {
 						nontrivial = true
+					}
+				}
+			}
+			if accepted {
+				// one member per share group: no more share-only receivers than groups, and a group none of whose members
+				// receives the message anyway (through an ordinary filter) must have had one member picked
+				if shareRecv > len(groupsAll) {
+					return fail("step %d: publish to %q: %d connections holding only share-group filters received it, %d groups have a matching member", step, ch, shareRecv, len(groupsAll))
+				}
+				for g, open := range groupsOpen {
+					if open && !groupHit[g] {
+						return fail("step %d: publish to %q: no member of share group %s received it although the group has a matching member", step, ch, g)
 					}
 				}
 			}
